@@ -10,7 +10,7 @@ from .c07 import mk
 from .common import MC, P, TTL_FOREVER, RecTransport, loop_clean, new_loop, stub_uniform
 
 PROPERTY = "C12"
-BUDGET_S = {"quick": 900, "thorough": 3400}
+BUDGET_S = {"quick": 900, "thorough": 7200}
 STUBS = ["VirtualLoop (symbolic arrival instant and iteration)", "random.uniform: symbolic tick counts inside the windows", "struct/bytes/enum lowering (all four id/version fields of the request are symbolic bytes)"]
 ASSUMPTIONS = [
     "only the first instance's initial delay is symbolic (the others start after 30 / 70 ms)", "a request arriving while an instance's first offer sits in the send collector (queued, not yet transmitted), or at the very tick of its first offer / of a stop, may or may not be answered: both accepted",
